@@ -75,6 +75,16 @@ struct CKey {
     int v;
     operator int() const { return v + 3; } // NOLINT
 };
+// heterogeneous key that is equivalent to SEVERAL distinct stored keys: PKey{h} matches every int x with x / 2 == h
+// (added after seeded breakage c09_equal_range_single_search: equal_range(K) returned {lb, lb+1} "because keys are
+// unique" - true for key_type, false for a transparent key that spans a run of stored keys)
+struct PKey {
+    int h;
+};
+inline bool operator<(PKey a, int b) { return a.h < b / 2; }
+inline bool operator<(int a, PKey b) { return a / 2 < b.h; }
+inline bool operator>(PKey a, int b) { return a.h > b / 2; }
+inline bool operator>(int a, PKey b) { return a / 2 > b.h; }
 inline bool operator<(WKey a, int b) { return a.v < b; }
 inline bool operator<(int a, WKey b) { return a < b.v; }
 inline bool operator>(WKey a, int b) { return a.v > b; }
@@ -470,6 +480,41 @@ void check_observers(Cx& cx, std::string const& fam, V& v, M const& m, std::size
             if constexpr (std::is_same_v<T, int>) {
                 CKey const ck{k};
                 all(ck, "K=convertible-to-another-key");
+            }
+        }
+    }
+    // a key spanning a run of stored keys (only comparators that order ints by value: less<> / greater<>)
+    if constexpr (transparent && std::is_same_v<T, int> && !CmpInfo<Cmp>::classes && requires(Cmp c, int x, PKey pk) { c(x, pk); c(pk, x); }) {
+        auto const mcmp = m.key_comp();
+        for (int h = 0; h <= (K + 1) / 2; ++h) {
+            long lower = 0, upper = 0;
+            for (int x : seq) {
+                bool const before = mcmp(x, 2 * h) && mcmp(x, 2 * h + 1);
+                bool const after  = mcmp(2 * h, x) && mcmp(2 * h + 1, x);
+                if (before) { ++lower; }
+                if (!after) { ++upper; }
+            }
+            std::string const cls = upper - lower >= 2 ? "key_spans_several_elements" : (upper - lower == 1 ? "key_present" : "key_absent");
+            auto const s          = [&](char const* f) { return cat(fam, "::", f, "(K=class-key)"); };
+            PKey const key{h};
+            auto const in_run = [&](long o) { return upper > lower ? (o >= lower && o < upper) : o == long(n); };
+            if (!in_run(voff(v.find(key)))) { cx.fail("C09", s("find"), cls, cat("find, non-const: offset ", voff(v.find(key)), " is not inside the run [", lower, ",", upper, ")")); }
+            if (!in_run(voff(cv.find(key)))) { cx.fail("C09", s("find"), cls, cat("find, const: offset ", voff(cv.find(key)), " is not inside the run [", lower, ",", upper, ")")); }
+            cx.eq("C09", s("contains"), cls, "contains", bool(cv.contains(key)), upper > lower);
+            // count(K) of a unique-key container: std returns the length of the run
+            cx.eq("C09", s("count"), cls, "count", long(cv.count(key)), upper - lower);
+            cx.eq("C09", s("lower_bound"), cls, "lower_bound, non-const", voff(v.lower_bound(key)), lower);
+            cx.eq("C09", s("lower_bound"), cls, "lower_bound, const", voff(cv.lower_bound(key)), lower);
+            cx.eq("C09", s("upper_bound"), cls, "upper_bound, non-const", voff(v.upper_bound(key)), upper);
+            cx.eq("C09", s("upper_bound"), cls, "upper_bound, const", voff(cv.upper_bound(key)), upper);
+            using er_t = decltype(cv.equal_range(key));
+            if constexpr (!std::is_convertible_v<er_t, T const*>) {
+                auto pr = v.equal_range(key);
+                cx.eq("C09", s("equal_range"), cls, "equal_range.first, non-const", voff(pr.first), lower);
+                cx.eq("C09", s("equal_range"), cls, "equal_range.second, non-const", voff(pr.second), upper);
+                auto cpr = cv.equal_range(key);
+                cx.eq("C09", s("equal_range"), cls, "equal_range.first, const", voff(cpr.first), lower);
+                cx.eq("C09", s("equal_range"), cls, "equal_range.second, const", voff(cpr.second), upper);
             }
         }
     }
